@@ -1,4 +1,4 @@
-CONSTANTS Q = 2 NClient = 1 NServer = 2 Calls = {k1, k2} CloseClosesChan = FALSE DrainByCount = TRUE
+CONSTANTS Q = 2 NClient = 1 NServer = 2 Calls = {k1, k2} CloseClosesChan = FALSE DrainByCount = TRUE SweepDone = FALSE
 SPECIFICATION Spec
 CHECK_DEADLOCK FALSE
 PROPERTIES Answered
